@@ -71,7 +71,10 @@ namespace sim
 			std::lock_guard<std::mutex> l(m_timer_queue_mutex);
 			if (!m_timer_queue.empty()) {
 				asio::high_resolution_timer* next_timer = *m_timer_queue.begin();
-				chrono::high_resolution_clock::fast_forward(next_timer->expiry() - now);
+				// a timer armed in the past is due right away; the clock never
+				// moves backwards
+				if (next_timer->expiry() > now)
+					chrono::high_resolution_clock::fast_forward(next_timer->expiry() - now);
 
 				now = chrono::high_resolution_clock::now();
 #ifdef LIBSIMULATOR_VERIF
